@@ -14,7 +14,7 @@ async function main () {
     let tier = a[2] === 'thorough' ? 'thorough' : 'quick'
     if (process.env.VERIF_TIER === 'quick' || process.env.VERIF_TIER === 'thorough') tier = process.env.VERIF_TIER
     const seed = parseInt(process.env.VERIF_SEED || '1', 10) || 1
-    let runs = null; let workers = require('os').cpus().length
+    let runs = null; let workers = parseInt(process.env.VERIF_WORKERS || '0', 10) || require('os').cpus().length
     for (let i = 3; i + 1 < a.length; i += 2) {
       if (a[i] === '--runs') runs = parseInt(a[i + 1], 10)
       if (a[i] === '--workers') workers = parseInt(a[i + 1], 10)
